@@ -68,17 +68,21 @@ FAMILY = {
     'rank1': ([[2, 2], [2, 2]], [1, -1], 0.5),
     'indefinite': ([[1, 0], [0, -1]], [1, 1], 1),
     'suite-con-internal': ([[2, 0], [0, 2]], [-2, -2], 2),
+    # n = 3: two bound hits in a row become possible (the radius left for the free variables is reduced twice)
+    'n3-zeroH': ([[0, 0, 0], [0, 0, 0], [0, 0, 0]], [1, -2, 1.5], 1),
+    'n3-diagH': ([[1, 0, 0], [0, 0.5, 0], [0, 0, 0.25]], [1, -2, 1.5], 2),
 }
+XOPT = {2: ['0.25', '-0.5'], 3: ['0.25', '-0.5', '0.125']}
 
 
 def body_n2(E, member, cauchy=False):
     np = E.np
-    n = 2
     Hc, gc, dc = FAMILY[member]
+    n = len(gc)
     g = E.arr([E.const(str(v)) for v in gc], 'f') if E.symbolic else np.array(gc, dtype=float)
     H = E.arr([[E.const(str(v)) for v in row] for row in Hc], 'f') if E.symbolic else np.array(Hc, dtype=float)
     delta = E.const(str(dc))
-    xopt = E.arr([E.const('0.25'), E.const('-0.5')], 'f') if E.symbolic else np.array([0.25, -0.5])
+    xopt = E.arr([E.const(v) for v in XOPT[n]], 'f') if E.symbolic else np.array([float(v) for v in XOPT[n]])
     sl = E.vec('sl', n)
     su = E.vec('su', n)
     E.assume(E.all([sl[i] <= xopt[i] for i in range(n)] + [xopt[i] <= su[i] for i in range(n)]))
@@ -130,6 +134,147 @@ def body_onesym(E, member):
     _cauchy_obligation(E, g0, H, xopt, sl, su, delta, d, n, '1sym:at-least-cauchy-decrease')
 
 
+# ---------------------------------------------------------------------------------------------------------------------
+# Inductive harnesses: ONE (or two) iteration(s) of the real conjugate-gradient loop of trsbox, sliced from the AST, from an
+# ARBITRARY state that satisfies the loop invariant CG-INV (everything symbolic: point, box, radius, model Hessian, step so far,
+# previous search direction, gradient).  One inductive step covers iteration histories of any length, which is how bound patterns
+# that need several bound hits (n >= 3) come into reach.
+#   CG-INV: sl <= xopt <= su, sl <= xopt+d <= su, fixed variables sit on their bound, delsq = Delta^2 - sum_fixed d_i^2 > 0,
+#           sum_free d_i^2 <= delsq, and (beta != 0  =>  beta > 0, s is zero on fixed variables, gnew_free . s_free = 0,
+#           gredsq = |gnew_free|^2)   [conjugacy after an exact line minimisation].
+#   property-level obligations after every iteration: point in the box, step in the ball, model change
+#           gnew.(d'-d) + (d'-d)H(d'-d)/2 <= 0, gradient update gnew' - gnew = H (d'-d).
+#   invariant obligations (inv:*) at every `continue`.
+
+def _find_cg_loop(fn):
+    import ast
+    from .. import loader
+    hits = [s for s in fn.body if isinstance(s, ast.For) and ast.unparse(s.iter) == 'range(MAX_LOOP_ITERS)']
+    if len(hits) != 1:
+        raise loader.AnchorError("expected exactly one `for .. in range(MAX_LOOP_ITERS)` loop in trsbox, found %d" % len(hits))
+    return hits[0].body
+
+
+def body_cg_iter(E, n, xbdi0, restart, steps):
+    from .. import loader
+    np = E.np
+    zero = E.const(0)
+    xopt = E.vec('xo', n)
+    sl = E.vec('sl', n)
+    su = E.vec('su', n)
+    d = E.vec('d', n)
+    gnew = E.vec('gn', n)
+    hv = {}
+    for i in range(n):
+        for j in range(i, n):
+            hv[(i, j)] = hv[(j, i)] = E.real('H%d_%d' % (i, j))
+    H = E.arr([[hv[(i, j)] for j in range(n)] for i in range(n)], 'f') if E.symbolic else np.array([[hv[(i, j)] for j in range(n)] for i in range(n)], dtype=float)
+    delta = E.real('delta', npy=False)
+    free = [i for i in range(n) if xbdi0[i] == 0]
+    fixed = [i for i in range(n) if xbdi0[i] != 0]
+    xbdi = E.arr(list(xbdi0), 'i') if E.symbolic else np.array(list(xbdi0), dtype=int)
+    E.assume(delta > 0)
+    E.assume(E.all([sl[i] <= xopt[i] for i in range(n)] + [xopt[i] <= su[i] for i in range(n)]))
+    E.assume(E.all([sl[i] <= xopt[i] + d[i] for i in free] + [xopt[i] + d[i] <= su[i] for i in free]))
+    for i in fixed:     # fixed variables sit on their bound: d_i is determined
+        d[i] = (su[i] - xopt[i]) if xbdi0[i] == 1 else (sl[i] - xopt[i])
+    delsq = delta * delta
+    for i in fixed:
+        delsq = delsq - d[i] * d[i]
+    E.assume(delsq > 0)
+    dfree2 = zero
+    for i in free:
+        dfree2 = dfree2 + d[i] * d[i]
+    E.assume(dfree2 <= delsq)
+    qred = E.real('qred', npy=False)
+    E.assume(qred >= 0)
+    gredsq0 = E.real('gredsq0', npy=False)
+    E.assume(gredsq0 > 0)
+    nact = len(fixed)
+    if restart:
+        beta = E.const(0)
+        s = np.zeros((n,))
+        gredsq = E.real('gredsq_stale', npy=False)
+        iterc = E.int('iterc', 0, 3)
+        itermax = E.int('itermax_stale', 0, 6)
+        E.assume(gredsq >= 0)
+    else:
+        beta = E.real('beta', npy=False)
+        E.assume(beta > 0)
+        s = E.vec('s', n)
+        for i in fixed:
+            s[i] = zero
+        gs = zero
+        gredsq = zero
+        for i in free:
+            gs = gs + gnew[i] * s[i]
+            gredsq = gredsq + gnew[i] * gnew[i]
+        E.assume(gs == 0)
+        iterc = E.int('iterc', 1, 3)
+        itermax = E.int('itermax', 2, 6)
+        E.assume(iterc < itermax)
+    env = dict(n=n, xopt=xopt, H=H, sl=sl, su=su, delta=delta, d=d, s=s, gnew=gnew, xbdi=xbdi, delsq=delsq, qred=qred, beta=beta,
+               gredsq=gredsq, gredsq0=gredsq0, iterc=iterc, itermax=itermax, nact=nact, crvmin=E.const(-1), need_alt_trust_step=False)
+    step = E.make_step('trust_region', 'trsbox', _find_cg_loop, '__cg', True)
+    for k in range(steps):
+        d_old, g_old = env['d'].copy(), env['gnew'].copy()
+        qred_old = env['qred']
+        try:
+            step(env)
+            out = 'fallthrough'
+        except loader._Continue:
+            out = 'continue'
+        except loader._Break:
+            out = 'break'
+        d1, g1, xb = env['d'], env['gnew'], env['xbdi']
+        tag = 'cg%d' % (k + 1) if steps > 1 else 'cg'
+        xn = xopt + d1
+        E.prove(E.all([sl[i] <= xn[i] for i in range(n)] + [xn[i] <= su[i] for i in range(n)]), tag + ':point-stays-in-box')
+        E.prove(np.dot(d1, d1) <= delta * delta * (1 + E.const('1e-8')) * (1 + E.const('1e-8')), tag + ':step-stays-in-ball')
+        dd = d1 - d_old
+        Hdd = np.dot(H, dd)
+        E.prove(np.dot(g_old, dd) + E.const('0.5') * np.dot(dd, Hdd) <= E.const('1e-12'), tag + ':model-not-increased-by-iteration')
+        exp = g_old + Hdd
+        E.prove(E.all([E.eq(g1[i], exp[i], tol=1e-7) for i in range(n)]), tag + ':gradient-updated-by-H-times-step-change')
+        E.prove(env['qred'] >= qred_old, tag + ':recorded-reduction-not-decreased')
+        xbl = [int(v) for v in E.flat(xb)]
+        if out == 'break':
+            if not env['need_alt_trust_step']:
+                dfin = E.get('d_within_bounds')(d1, xopt, sl, su, xb)
+                E.prove(np.dot(dfin, dfin) <= delta * delta * (1 + E.const('1e-8')) * (1 + E.const('1e-8')), tag + ':returned-step-in-ball')
+            # fixed variables are exactly on their bounds when the loop is left (alt_trust_step / d_within_bounds rely on it)
+            E.prove(E.all([E.eq(xn[i], su[i] if xbl[i] == 1 else sl[i], tol=1e-9) for i in range(n) if xbl[i] != 0] or [True]), tag + ':fixed-variables-on-their-bounds-at-exit')
+            return
+        # `continue`: the invariant is re-established
+        fx = [i for i in range(n) if xbl[i] != 0]
+        fr = [i for i in range(n) if xbl[i] == 0]
+        E.prove(E.all([E.eq(xn[i], su[i] if xbl[i] == 1 else sl[i], tol=1e-9) for i in fx] or [True]), 'inv:fixed-variables-on-their-bounds')
+        E.prove(env['nact'] == len(fx), 'inv:nact-counts-fixed-variables')
+        ds2 = delta * delta
+        for i in fx:
+            ds2 = ds2 - d1[i] * d1[i]
+        E.prove(E.eq(env['delsq'], ds2, tol=1e-9), 'inv:delsq-is-radius-left-for-free-variables')
+        E.prove(env['delsq'] > 0, 'inv:delsq-positive')
+        f2 = zero
+        for i in fr:
+            f2 = f2 + d1[i] * d1[i]
+        E.prove(f2 <= env['delsq'] * (1 + E.const('1e-8')), 'inv:free-part-within-delsq')
+        b1 = env['beta']
+        if E.is_true(b1 == 0):
+            pass
+        else:
+            s1 = env['s']
+            gs1, gg1 = zero, zero
+            for i in fr:
+                gs1 = gs1 + g1[i] * s1[i]
+                gg1 = gg1 + g1[i] * g1[i]
+            E.prove(b1 > 0, 'inv:beta-positive')
+            E.prove(E.eq(gs1, zero, tol=1e-7), 'inv:new-gradient-orthogonal-to-direction')
+            E.prove(E.eq(env['gredsq'], gg1, tol=1e-9), 'inv:gredsq-is-free-gradient-norm')
+            E.prove(env['iterc'] < env['itermax'], 'inv:iteration-counter-below-limit')
+            E.prove(E.all([E.eq(s1[i], zero) for i in fx] or [True]), 'inv:direction-zero-on-fixed-variables')
+
+
 def body_clip_fp(E):
     """binary64: the step is fl(xnew - xopt) for a point xnew = clip(xopt + d0) that lies in [sl, su] exactly.
     (Monotonicity of rounding, fl(sl - xopt) <= d <= fl(su - xopt), is an IEEE fact neither z3 nor cvc5 decided in 300 s;
@@ -160,6 +305,15 @@ def body_clip_fp(E):
         E.prove(E.all([sl[0] <= xnew, xnew <= su[0]]), 'clip:clipped-point-exactly-in-box')
 
 
+def _cg_grid(tier):
+    import itertools
+    n2 = [p for p in itertools.product((0, 1, -1), repeat=2) if 0 in p]
+    if tier == 'quick':
+        return [(2, n2, 1)]
+    n3 = [p for p in itertools.product((0, 1, -1), repeat=3) if p.count(0) >= 2] + [(1, -1, 0), (0, 1, 1), (-1, 0, 1)]
+    return [(2, n2, 1), (2, [(0, 0), (1, 0), (0, -1)], 2), (3, n3, 1), (3, [(1, 0, 0), (0, -1, 0)], 2)]
+
+
 FUNCS = ['trust_region.trsbox', 'trust_region.alt_trust_step', 'trust_region.d_within_bounds']
 
 
@@ -174,10 +328,10 @@ def harnesses(tier, seed):
                       expect=['n1:step-inside-box', 'n1:at-least-cauchy-decrease'], nproc=None, wall_budget=(200 if tier == 'quick' else 1500)))
     # measured: zero H completes in seconds; members with curvature run into rational expressions of growing degree
     # (mostly `unknown` at 10-20 s/query) - they are explored in the thorough tier under a budget and reported as not exhaustive
-    members = ['zeroH'] if tier == 'quick' else list(FAMILY.keys())
+    members = ['zeroH', 'n3-zeroH'] if tier == 'quick' else list(FAMILY.keys())
     for mname in members:
-        hs.append(Harness("trsbox[n=2,%s]" % mname, 'dfverif.checks.c12', 'body_n2', params=dict(member=mname, cauchy=(tier != 'quick')), cfg=nra(), functions=FUNCS,
-                          bounds="n=2; (g, H, Delta) = family member '%s' and xopt = (0.25, -0.5) concrete (trsbox only uses sl-xopt, su-xopt), the box symbolic" % mname,
+        hs.append(Harness("trsbox[n=%d,%s]" % (len(FAMILY[mname][1]), mname), 'dfverif.checks.c12', 'body_n2', params=dict(member=mname, cauchy=(tier != 'quick')), cfg=nra(), functions=FUNCS,
+                          bounds="n=%d; (g, H, Delta) = family member '%s' and xopt concrete (trsbox only uses sl-xopt, su-xopt), the box symbolic" % (len(FAMILY[mname][1]), mname),
                           assumptions=["semi-symbolic: concrete model data, symbolic geometry", "real arithmetic (QF_NRA)"],
                           expect=['n2:step-inside-box'], nproc=None, wall_budget=(150 if tier == 'quick' else 1500), expect_exhaustive=False,
                           max_paths=(400 if tier == 'quick' else 5000)))
@@ -186,6 +340,16 @@ def harnesses(tier, seed):
                           bounds="n=2; g, H, Delta, xopt and three bounds concrete, ONE bound symbolic in a range around the value where the boundary refinement is limited by it",
                           assumptions=["semi-symbolic with one symbol", "real arithmetic (QF_NRA); gnew compared to 1e-9 absolute"],
                           expect=['1sym:step-inside-box'], nproc=None, wall_budget=(150 if tier == 'quick' else 900), expect_exhaustive=False, max_paths=300))
+    for (n, pats, steps) in _cg_grid(tier):
+        for xb in pats:
+            for restart in (True, False):
+                hs.append(Harness("cg-iteration[n=%d,fixed=%s,%s,steps=%d]" % (n, ''.join('+' if v == 1 else '-' if v == -1 else '0' for v in xb), 'restart' if restart else 'conjugate', steps),
+                                  'dfverif.checks.c12', 'body_cg_iter', params=dict(n=n, xbdi0=list(xb), restart=restart, steps=steps), cfg=nra(), functions=FUNCS,
+                                  bounds="n=%d, %d iteration(s) of the sliced CG loop of trsbox from ANY state satisfying CG-INV; xopt, box, Delta, H (symmetric), d, s, gnew all symbolic; fixed-variable pattern %s" % (n, steps, list(xb)),
+                                  assumptions=["CG-INV at the loop head (DESIGN 4/C12): box, fixed variables on their bounds, delsq = Delta^2 - sum_fixed d_i^2 > 0, |d_free|^2 <= delsq, conjugacy when beta != 0",
+                                               "real arithmetic (QF_NRA); the model gradient g enters only through gnew (obligations are stated relative to the pre-state)"],
+                                  expect=['cg:point-stays-in-box' if steps == 1 else 'cg1:point-stays-in-box'], nproc=None,
+                                  wall_budget=(120 if tier == 'quick' else 900), expect_exhaustive=False, max_paths=2000))
     hs.append(Harness("clip-binary64", 'dfverif.checks.c12', 'body_clip_fp', params={}, cfg=core.Cfg(fork_queries=True, qtimeout_ms=120000, logic='QF_FP'),
                       functions=['trust_region.d_within_bounds'], bounds="IEEE binary64, one coordinate, |values| <= 1000",
                       assumptions=["finite inputs, sl <= xopt <= su"], expect=['clip:clipped-point-exactly-in-box'], nproc=1, replay=False))
